@@ -71,7 +71,7 @@ harness!(mid_len1, 6, {
     reach!(n == 0 && start == 2 && len.is_none());
 });
 
-//# harness mid_len2 tier=quick label=bounded(|s|=2,ascii) props=C17 fn=rusty_basic/src/interpreter/built_ins/mid_fn.rs::do_mid
+//# harness mid_len2 tier=thorough label=bounded(|s|=2,ascii) props=C17 fn=rusty_basic/src/interpreter/built_ins/mid_fn.rs::do_mid timeout=1800 attempt=1
 harness!(mid_len2, 6, {
     let s = [vs::ascii() as u8, vs::ascii() as u8];
     let (start, len, n) = check_mid(&s);
@@ -81,7 +81,7 @@ harness!(mid_len2, 6, {
     reach!(n == 0 && start == 3 && len.is_none());
 });
 
-//# harness mid_len3 tier=quick label=bounded(|s|=3,ascii) props=C17 fn=rusty_basic/src/interpreter/built_ins/mid_fn.rs::do_mid
+//# harness mid_len3 tier=thorough label=bounded(|s|=3,ascii) props=C17 fn=rusty_basic/src/interpreter/built_ins/mid_fn.rs::do_mid timeout=1800 attempt=1
 harness!(mid_len3, 6, {
     let s = [vs::ascii() as u8, vs::ascii() as u8, vs::ascii() as u8];
     let (start, len, n) = check_mid(&s);
